@@ -13,7 +13,7 @@ ASSUMPTIONS = [
     'winding / hull: query points off the polygon boundary; polygons with more than 3 vertices have concrete integer-grid vertices and a symbolic query point',
     'voxels: symbolic boxes have concrete extents (the membership test multiplies coordinates by extents); grids: symbolic bounding box at least 1e-3 wide',
 ]
-OUTSIDE = ['fully symbolic polygons with > 3 vertices (bilinear branch conditions: z3 unknown)', 'voxel grid sizes > 4', 'polygons with > 6 vertices', 'num_procs > 1']
+OUTSIDE = ['fully symbolic polygons with > 3 vertices (bilinear branch conditions: z3 unknown)', 'voxel grid sizes > 4', 'polygons with > 6 vertices', 'num_procs > 1 beyond the pool model (order-preserving map over copied arguments / results); scheduling and worker-private state are only exercised by the float replay']
 BOUNDS = {'quick': '2-D rays symbolic vs grid rays and fully symbolic pairs; 3-D constructed intersecting/skew/parallel pairs; triangles fully symbolic; 12 grid polygons; hull of 3 symbolic / 4-5 mixed points; voxel grids 2..3; find_ctrlpts support on curves p<=3 and surfaces',
           'thorough': 'more grid polygons (all simple 4-gons on a 3x3 grid), hull with 6 points, voxel grids to 4'}
 
@@ -254,7 +254,7 @@ def h_voxel_grid(cx, sz, use_cubes=False):
         cx.ge('last_max_covers[%d]' % i, grid[-1][1][i], hi[i])
 
 
-def h_voxelize(cx, sz):
+def h_voxelize(cx, sz, num_procs=1):
     """voxelize a bilinear patch with one symbolic corner height: filled[i] == 1 <=> a sampled point lies in cell i"""
     VX = geo.M('voxelize')
     B = geo.M('BSpline')
@@ -265,8 +265,10 @@ def h_voxelize(cx, sz):
     s.knotvector_u = [0, 0, 1, 1]
     s.knotvector_v = [0, 0, 1, 1]
     s.sample_size = 3
-    grid, filled = VX.voxelize(s, grid_size=sz)
-    cx.check('sizes', len(grid) == len(filled) == sz[0] * sz[1] * sz[2])
+    grid, filled = VX.voxelize(s, grid_size=sz) if num_procs == 1 else VX.voxelize(s, grid_size=sz, num_procs=num_procs)
+    cx.check('sizes', len(grid) == len(filled) == sz[0] * sz[1] * sz[2], '%d cells, %d flags' % (len(grid), len(filled)))
+    if len(grid) != len(filled):
+        return
     pts = s.evalpts
     tol = F(10e-8)
     for k, cell in enumerate(grid):
@@ -401,6 +403,12 @@ def instances(tier):
     out.append(inst('voxelize bilinear patch (2,2,2)', h_voxelize, timeout=1800, sz=(2, 2, 2)))
     if not quick:
         out.append(inst('voxelize bilinear patch (3,2,2)', h_voxelize, timeout=3600, sz=(3, 2, 2)))
+    # worker pools (model: order-preserving map over copies, see core.SerialPool; the float replay uses real processes)
+    for np_ in ((2, 3) if quick else (2, 3, 4, 8)):
+        out.append(inst('voxelize bilinear patch (2,2,2) num_procs=%d' % np_, h_voxelize, timeout=1800, sz=(2, 2, 2), num_procs=np_))
+    if not quick:
+        for np_ in (2, 8):
+            out.append(inst('voxelize bilinear patch (3,2,2) num_procs=%d' % np_, h_voxelize, timeout=3600, sz=(3, 2, 2), num_procs=np_))
     for p in (1, 2, 3):
         for m in ((), (1,), (p,), (1, 1)):
             sp = spec('curve', (p,), (m,), rational=(p == 2))
